@@ -70,8 +70,8 @@ func (cf wsConf) modelScript() string {
 }
 
 type wsRun struct {
-	picks []int
-	starved string
+	picks     []int
+	starved   string
 	events    []string // "<tid|*>:r" ...
 	rets      [][]string
 	durs      [][]time.Duration
